@@ -3,3 +3,6 @@ import BroodModel.Alloc
 import BroodModel.World
 import BroodModel.Inv
 import BroodModel.Dump
+import BroodModel.Query
+import BroodModel.Spec
+import BroodModel.Serde
